@@ -557,7 +557,7 @@ func c17WaitBusy(c *Case, rng *Rng, nq, busy, kind, rounds int) {
 }
 
 func runC17(r *Run) {
-	r.Rule = "real TaskQueueSet + started TaskQueue workers + the real ManagerEventsHandler; every worker is stepped from one yield point to the next (loop, afterCtxCheck, beforeSelect, tick, handler entry, afterHandler, exit); a case is a random schedule over 1-4 queues (deliveries through the consumer incl. absent queues, handler results Success/Fail/Repeat/Keep with head/after/tail tasks and delays, Filter from inside the handler, repeated Start, queues created/started late) with TaskQueueSet.Stop() injected at position k (quick: k random in 0..30; thorough: every k in 0..40 for 150 schedule seeds, and exhaustively all 3432 interleavings of two workers (7 steps each) x 15 stop positions), then all workers run to exit, late deliveries and late starts follow; free-running cases (real goroutines, Stop() at a random moment while events keep arriving) check the weak form (at most one more start per queue, every worker exits, nothing after exit); whole-operator cases call the real ShellOperator.Shutdown() on an operator with bash hooks in several queues, one hook in the middle of its run and ticks still arriving, and check from the hook processes' markers and the queue statuses that after Shutdown() returned a queue starts at most the one task it had picked and nothing once it showed Status stop, and that every queue shows Status stop once the running hook returns; whole-operator cases with cluster events do the same on hooks with 1-3 schedule and kubernetes bindings each (every binding with no queue, `main`, or one of 1-4 names: queues named only by kubernetes bindings, only by schedule bindings, by both), the kubernetes bindings watching ConfigMaps of a fake cluster through the real informers and the real events consumer: a cluster change reaches every kubernetes binding before the shutdown, hook h1 hangs mid-run (2 of 3) with work queued behind it, changes in flight, Shutdown(), then more cluster changes (new objects, modifications, deletions) and ticks; checked: the stop request reached the context of every queue the configurations name, after Shutdown() returned a queue starts at most the one task it had picked and nothing once it showed stop (no bound on how late a hook process writes its marker), every queue shows stop, no object created after the shutdown appears in an execution; the real WaitStopWithTimeout is run with 2-4 (thorough 2-6) queues created in a shuffled order, each queue in turn the unfinished one (in the middle of a handler / parked in its loop) while the others have exited, over several rounds of its 100 ms check (a fresh map order each): it must not be back before that worker has exited and must end ahead of its timeout afterwards; whole-operator cases with a silent API server (one at a time) request the real Shutdown() while the main queue's handler is inside AddMonitor / StartMonitor of a later hook (a reactor on the fake dynamic client holds that LIST request), hook h1 hanging mid-run with runs of other hooks queued behind it and every other queue run dry: Shutdown() must come back, the stop request must have reached every queue, a queue starts at most the one task it had picked, every named queue shows stop once h1 returns (the API server still silent) and main once the API server answers; whenever a worker was inside its handler for a whole Shutdown() call, the call must not have returned ahead of WaitQueuesTimeout; one case runs the real ScheduleManager with an every-second crontab and checks that no tick arrives once Stop() has taken effect; when the stop finds a worker before the select the ticker is given time to fire so that both select cases are ready. Non-trivial = the observed event trace has >= 6 events; distinct = distinct op-line sequences."
+	r.Rule = "real TaskQueueSet + started TaskQueue workers + the real ManagerEventsHandler; every worker is stepped from one yield point to the next (loop, afterCtxCheck, beforeSelect, tick, handler entry, afterHandler, exit); a case is a random schedule over 1-4 queues (deliveries through the consumer incl. absent queues, handler results Success/Fail/Repeat/Keep with head/after/tail tasks and delays, Filter from inside the handler, repeated Start, queues created/started late) with TaskQueueSet.Stop() injected at position k (quick: k random in 0..30; thorough: every k in 0..40 for 150 schedule seeds, and exhaustively all 3432 interleavings of two workers (7 steps each) x 15 stop positions), then all workers run to exit, late deliveries and late starts follow; free-running cases (real goroutines, Stop() at a random moment while events keep arriving) check the weak form (at most one more start per queue, every worker exits, nothing after exit); whole-operator cases call the real ShellOperator.Shutdown() on an operator with bash hooks in several queues, one hook in the middle of its run and ticks still arriving, and check from the hook processes' markers and the queue statuses that after Shutdown() returned a queue starts at most the one task it had picked and nothing once it showed Status stop, and that every queue shows Status stop once the running hook returns; whole-operator cases with cluster events do the same on hooks with 1-3 schedule and kubernetes bindings each (every binding with no queue, `main`, or one of 1-4 names: queues named only by kubernetes bindings, only by schedule bindings, by both), the kubernetes bindings watching ConfigMaps of a fake cluster through the real informers and the real events consumer: a cluster change reaches every kubernetes binding before the shutdown, hook h1 hangs mid-run (2 of 3) with work queued behind it, changes in flight, Shutdown(), then more cluster changes (new objects, modifications, deletions) and ticks; checked: the stop request reached the context of every queue the configurations name, after Shutdown() returned a queue starts at most the one task it had picked and nothing once it showed stop (no bound on how late a hook process writes its marker), every queue shows stop, no object created after the shutdown appears in an execution; the real WaitStopWithTimeout is run with 2-4 (thorough 2-6) queues created in a shuffled order, each queue in turn the unfinished one (in the middle of a handler / parked in its loop) while the others have exited, over several rounds of its 100 ms check (a fresh map order each): it must not be back before that worker has exited and must end ahead of its timeout afterwards; whole-operator cases with a silent API server (one at a time) request the real Shutdown() while the main queue's handler is inside AddMonitor / StartMonitor of a later hook (a reactor on the fake dynamic client holds that LIST request), hook h1 hanging mid-run with runs of other hooks queued behind it and every other queue run dry: Shutdown() must come back, the stop request must have reached every queue, a queue starts at most the one task it had picked, every named queue shows stop once h1 returns (the API server still silent) and main once the API server answers; whenever a worker was inside its handler for a whole Shutdown() call, the call must not have returned ahead of WaitQueuesTimeout; the stop request is also placed inside the set-up of a controlled case (quick: 8 % of the cases; thorough: positions -4..-1 of every schedule seed): before the first NewNamedQueue — the set is empty —, between NewNamedQueue and Start, between two queues; queues created and started after it must be born stopped, and at the end of every controlled case the context of every queue of the set must have heard the request (stopheard) and the model of WithContext / Stop / NewNamedQueue is compared on the set-level operations of the case (setctx); in the whole-operator cases with cluster events 2 of 5 configurations use two queue names that are near-copies of each other (differ by case only — q2 / Q2, main / Main / MAIN —, or one a prefix of the other), both in use, in either order and by either kind of binding; a tick must lead to an execution through every schedule binding (and a cluster change through every kubernetes binding) before the shutdown; every queue the set holds after the run — whatever its name, whoever created it — is held to stopheard / terminated / weakstop, queues no binding names are reported to the model; in 1 of 5 of these cases the real Shutdown() is called during the start-up instead, between two queue-related steps of Start() (before bootstrapMainQueue — no queue exists —, before StartMain, before initAndStartHookQueues, before the events consumer starts), the start goes on, cluster changes and ticks follow; one case runs the real ScheduleManager with an every-second crontab and checks that no tick arrives once Stop() has taken effect; when the stop finds a worker before the select the ticker is given time to fire so that both select cases are ready. Non-trivial = the observed event trace has >= 6 events; distinct = distinct op-line sequences."
 	if os.Getenv("VERIF_C17_ONLY") == "slowapi" { // debugging aid: this one family alone, as parallel as in a full run
 		shell_operator.WaitQueuesTimeout = time.Second
 		r.Cases(80000, r.N(12, 60), 1, func(c *Case, rng *Rng) { c17OperatorSlowAPI(r, c, rng) })
